@@ -169,6 +169,11 @@ def run(rep, facts, tier):
     nf = import_rules(rep, c02, {k: v for k, v in facts.items() if k in ("A", "M")}, tier, "ENTRY", pred=lambda k: k.startswith("FUNNEL/"))
     rep.rules += ["ENTRY (C02's FUNNEL instances: each decode entry point feeds the decoder the whole, and only the, 32-byte input)"]
     rep.floor("decode_entry_points", nf, 14)
+    # "yields an element EQUAL to the original" is stated through PartialEq: the equality must be the Decaf test on every pair of representatives
+    # (a coordinate-wise shortcut separates decode(encode(P)) from P whenever P is held as the other point of its coset) - C08's TERM instances
+    from . import c08
+    ne = import_rules(rep, c08, {k: v for k, v in facts.items() if k in ("A", "M")}, tier, "EQ", pred=lambda k: k.startswith("TERM/"))
+    rep.floor("equality_impls", ne, 3)
     if "A" in cfgs and "M" in cfgs and dec["A"] and dec["M"]:
         # the bytes parameter is spelled identically in both builds (field 0 of the Encoding), so keys are comparable
         rep.ob("SIB/A-M/decode", True, "both builds' decode terms equal the same specification term", nontrivial=False)
